@@ -457,7 +457,13 @@ class Function:
                 if c == term:
                     c = n['c'][0]
                 else:
-                    c = n['c'][1]
+                    # the right operand is the value tested here only if it is evaluated in this block;
+                    # otherwise this is a join block that tests the value of the whole expression
+                    rhs = n['c'][1]
+                    p = self.cfg_pos(self.strip(rhs))
+                    if p is not None and p[0] != bid:
+                        return c
+                    c = rhs
                 continue
             return c
 
